@@ -90,6 +90,7 @@ Write(blk, sel, aop, src, cx) ==
 (*   [k |-> "vw", buf, shape, r]          a slice of a (possibly the same) buffer                  *)
 (*   [k |-> "ex", buf, shape, r, m, c]    the expression  m * slice + c                            *)
 (*   [k |-> "ex2", buf, shape, r, vals]   the expression  slice + tensor                           *)
+(*   [k |-> "rv", buf, sel]               an index-tensor view (flat offsets sel) of a buffer       *)
 (* evaluated on memory `mem` (a function from buffer names to blocks), n = number of elements.     *)
 EvalRhs(mem, rhs, n, cx) == TLCEval(
     CASE rhs.k = "sc" -> [q \in 1..n |-> rhs.v]
@@ -97,6 +98,7 @@ EvalRhs(mem, rhs, n, cx) == TLCEval(
       [] rhs.k = "vw" -> Read(mem[rhs.buf], Sel(rhs.shape, rhs.r))
       [] rhs.k = "ex" -> LET x == Read(mem[rhs.buf], Sel(rhs.shape, rhs.r))
                          IN [q \in 1..n |-> Add(Mul(rhs.m, x[q], cx), rhs.c, cx)]
+      [] rhs.k = "rv" -> Read(mem[rhs.buf], rhs.sel)                                  \* index view of a buffer
       [] rhs.k = "ex2" -> LET x == Read(mem[rhs.buf], Sel(rhs.shape, rhs.r))
                           IN [q \in 1..n |-> Add(x[q], rhs.vals[q], cx)])
 
@@ -123,6 +125,24 @@ IdxSel(shape, axes) == IdxSelFrom(shape, axes, 1)
 
 \* boolean mask: positions where the mask is true, in flat order; the rhs element at the SAME flat position is used
 MaskSel(mask) == SelectSeq([p \in 1..Len(mask) |-> p - 1], LAMBDA off : mask[off + 1] = 1)
+
+\* assignment through a mask: the rhs (scalar, or tensor of the FULL shape) element at the same flat position
+MaskAssign(mem, buf, mask, aop, rhs, n, cx) ==
+    LET sel  == MaskSel(mask)
+        full == EvalRhs(mem, rhs, n, cx)
+    IN [mem EXCEPT ![buf] = Write(mem[buf], sel, aop, [q \in 1..Len(sel) |-> full[sel[q] + 1]], cx)]
+
+\* layout conversion: column-major offset of a multi-index, and the two mutually inverse conversions
+\*   FromCM(a): a holds column-major data; result is the row-major tensor        FromCM(a)[RowOff(i)] = a[ColOff(i)]
+\*   ToCM(a):   a is row-major; result holds the same tensor in column-major order  ToCM(a)[ColOff(i)] = a[RowOff(i)]
+RECURSIVE UnflatFrom(_, _, _)
+UnflatFrom(shape, off, a) == IF a > Len(shape) THEN <<>>
+                             ELSE <<off \div Stride(shape, a)>> \o UnflatFrom(shape, off % Stride(shape, a), a + 1)
+Unflat(shape, off) == UnflatFrom(shape, off, 1)
+ColOff(shape, idx) == LET RECURSIVE Go(_) Go(a) == IF a > Len(shape) THEN 0 ELSE idx[a] * Prod(SubSeq(shape, 1, a - 1)) + Go(a + 1) IN Go(1)
+FromCM(shape, a) == TLCEval([p \in 1..Len(a) |-> a[ColOff(shape, Unflat(shape, p - 1)) + 1]])
+ToCM(shape, a)   == LET perm == [p \in 1..Len(a) |-> ColOff(shape, Unflat(shape, p - 1)) + 1]          \* row pos -> col pos
+                    IN TLCEval([c \in 1..Len(a) |-> a[CHOOSE p \in 1..Len(a) : perm[p] = c]])
 
 \* initial contents of buffer number b with n cells (the harness uses the same formula)
 InitCell(b, i) == ((i * 7 + b * 3) % 19) - 9
